@@ -49,6 +49,7 @@ def units(tier, seed):
     for i in range(0, len(names), CHUNK_E):
         us.append({'kind': 'entries', 'names': names[i:i + CHUNK_E], 'tier': tier, 'seed': seed})
     us.append({'kind': 'zero', 'tier': tier, 'seed': seed})
+    us.append({'kind': 'cmp', 'tier': tier, 'seed': seed})
     us.append({'kind': 'high', 'tier': tier, 'seed': seed})
     progs = programs(tier)
     for i in range(0, len(progs), CHUNK_P):
@@ -252,6 +253,44 @@ def check_program_nonfinite(prog, depth, D, seed, out):
         out['fails'].append({'sig': 'C12|prog=%s|reverse|non-finite top coefficient' % ps, 'case': dict(case, Dp=Dp, mode='reverse'), 'detail': {'why': why}, 'attribs': attribs('reverse-nonfinite')})
 
 
+def run_cmp(u, out):
+    """comparisons (they steer data-dependent branches): the outcome for D coefficients equals the outcome for the inputs
+    truncated to D' = 1, ..., D-1, for same-shape and broadcasting operand pairs, with higher coefficients chosen so that
+    they would decide the comparison the other way"""
+    import operator
+    import itertools
+    ops = {'lt': operator.lt, 'le': operator.le, 'gt': operator.gt, 'ge': operator.ge, 'eq': operator.eq}
+    for opn, op in ops.items():
+        for sa, sb in [((2,), (2,)), ((2,), ()), ((), (2,)), ((2, 1), (1, 2)), ((3,), ()), ((), ())]:
+            na, nb = int(np.prod(sa)) if sa else 1, int(np.prod(sb)) if sb else 1
+            for pattern in itertools.product((-1, 0, 1), repeat=2):
+                for (D, Pn) in [(2, 1), (3, 1), (3, 2)]:
+                    X = np.zeros((D, Pn) + sa)
+                    Y = np.zeros((D, Pn) + sb)
+                    for p in range(Pn):
+                        X[0, p] = (np.arange(na) * 0.75 - 0.5 + 0.25 * p).reshape(sa)
+                        Y[0, p] = np.array([X[0, p].ravel()[k % na] - 0.5 * pattern[k % 2] for k in range(nb)]).reshape(sb)
+                    X[1:] = -1e3 if opn in ('gt', 'ge') else 1e3
+                    Y[1:] = 1e3 if opn in ('gt', 'ge') else -1e3
+                    case = {'kind': 'cmp', 'op': opn, 'sa': list(sa), 'sb': list(sb), 'pattern': list(pattern), 'D': D, 'P': Pn}
+                    try:
+                        full = bool(op(UTPM(X.copy()), UTPM(Y.copy())))
+                    except Exception:
+                        out['counters']['raises (reported by C10)'] = out['counters'].get('raises (reported by C10)', 0) + 1
+                        continue
+                    for Dp in range(1, D):
+                        out['evals'] += 1
+                        out['keys'].append('cmp|%s|%s|%s|%s|%d|%d|%d' % (opn, sa, sb, pattern, D, Pn, Dp))
+                        try:
+                            tr = bool(op(UTPM(X[:Dp].copy()), UTPM(Y[:Dp].copy())))
+                        except Exception as ex:
+                            continue
+                        if tr != full:
+                            out['fails'].append({'sig': 'C12|cmp %s|%s|outcome depends on the number of coefficients' % (opn, 'same shape' if sa == sb else 'broadcast'),
+                                                 'case': dict(case, Dp=Dp), 'detail': {'full': full, 'truncated': tr}})
+                            break
+
+
 def run_unit(u):
     out = {'evals': 0, 'keys': [], 'fails': [], 'samples': [], 'counters': {}, 'maxima': {}}
     if u['kind'] == 'entries':
@@ -261,6 +300,8 @@ def run_unit(u):
         out['samples'] = [{'entry': u['names'][0], 'D': list(range(2, DMAX[u['tier']] + 1)), 'Dp': 'every D\' < D'}]
     elif u['kind'] == 'zero':
         run_zero(u, out)
+    elif u['kind'] == 'cmp':
+        run_cmp(u, out)
     elif u['kind'] == 'high':
         run_high(u, out)
     else:
@@ -280,6 +321,9 @@ def replay(case):
     elif case['kind'] == 'high':
         run_high({'tier': 'thorough', 'seed': case.get('seed', 0)}, out)
         out['fails'] = [f for f in out['fails'] if f['case']['name'] == case['name'] and f['case']['D'] == case['D']]
+    elif case['kind'] == 'cmp':
+        run_cmp({}, out)
+        out['fails'] = [f for f in out['fails'] if all(f['case'].get(k) == case.get(k) for k in ('op', 'sa', 'sb', 'pattern', 'D', 'P'))]
     elif case['kind'] == 'zero':
         run_zero({'tier': 'thorough'}, out)
         out['fails'] = [f for f in out['fails'] if f['case']['name'] == case['name'] and f['case']['D'] == case['D']]
